@@ -373,6 +373,13 @@ class Node(ModelElement):
 
         node_id = self.topo.graph_model.find_ns_by_name(parent_node_id=self.node_id,
                                                         nsname=name)
+        for pi in self.network_services[name].interface_list:
+            # ports (and their sub-interfaces) connected to a service: disconnect first so that
+            # the service-side port does not stay behind
+            for i in (pi,) + tuple(pi.interface_list):
+                peers = i.get_peers(itype=InterfaceType.ServicePort)
+                if peers and len(peers) == 1:
+                    self.topo.get_parent_element(peers[0]).disconnect_interface(i)
         self.topo.graph_model.remove_ns_with_cps_and_links(node_id=node_id)
 
     def remove_storage(self, name: str) -> None:
